@@ -666,8 +666,7 @@ def guards(case):
     """ids of the known-finding classes this case falls into"""
     case = {k: v for k, v in case.items() if not k.startswith('_')}
     out = set()
-    if potential_nodes(case) != all_ids(case):
-        out.add('K1')
+    # K1 (nodes outside the potential reach of the start nodes were kept) was repaired by 0f0c145: no guard class any more
     if self_conflicting_option(case):
         out.add('K7')
     if dead_end_prefix(case):
